@@ -950,11 +950,7 @@ def call_search(case):
             continue
         sub = squeeze(h[0])
         first = text.find(sub)
-        if first < 0:
-            first = low.find(sub.lower())
         seq = text.find(sub, pos)
-        if seq < 0:
-            seq = low.find(sub.lower(), pos)
         if seq >= 0:
             pos = seq + max(1, len(sub))
         res["hits"].append({"tuple": True, "blank": h[0].strip() == "", "first": first, "seq": seq, "lang": h[2] if case.get("withlang") else "",
